@@ -23,7 +23,7 @@ RULE = ("seeded random configurations: circuit (0-3 heralds of 0-2 photons incl.
         "lossy, post-selection kind, #inputs, detector mode, photons, modes); non-trivial = heralds or loss or "
         "post-selection present")
 MANDATORY = ["herald_with_photon", "herald_in_ne_out", "post_selection_rejects", "threshold_bunched_candidate",
-             "lossy", "predicate_post_selection", "rule_post_selection", "error_rate_checked", "rule_added_in_place", "expected_in_other_order", "herald_declared_in_place"]
+             "lossy", "predicate_post_selection", "rule_post_selection", "error_rate_checked", "rule_added_in_place", "rule_added_to_empty_post_selection", "expected_in_other_order", "herald_declared_in_place"]
 DECIDING = ["rel_analyzer_vs_sampler", "rel_quick_vs_sampler", "rel_simulator_vs_sampler", "rel_performance"]
 BUDGET = {"quick": 30, "thorough": 480}
 ASSUMPTIONS = ["relations are checked between the objects' own results: absolute tolerance 1e-10 plus the documented 1e-9 "
@@ -359,6 +359,55 @@ def run(ctx):
                         ctx.violation("quick sampler raised after a rule was added in place although the conditioned "
                                       f"sampler distribution has mass {tot2:.6f}", case=case,
                                       mechanism="quick_raises_after_in_place_rule", monitor="relation checker")
+            # (g2) an Analyzer and a QuickSampler are handed a PostSelection that is still *empty*; the rule is added to it
+            # afterwards, in place. Both must then answer like the conditioned sampler distribution.
+            if ps_kind == "none" and k >= 1 and rng.random() < 0.35:
+                try:
+                    ps_e = lw.PostSelection(multi_rules=bool(rng.random() < 0.5))
+                    an_e = emu.Analyzer(c)
+                    an_e.post_selection = ps_e
+                    qs_e = emu.QuickSampler(c, inputs[0], photon_counting=pc, post_select=ps_e)
+                    if rng.random() < 0.5:
+                        try:
+                            _ = qs_e.probability_distribution
+                            an_e.analyze(inputs[0])
+                        except Exception:  # noqa: BLE001
+                            pass
+                    m_add = int(rng.integers(k))
+                    nums = [(0, 1), (1,), (0,), (1, 2)][int(rng.integers(4))]
+                    ps_e.add(m_add, nums)
+                    ctx.bucket("rule_added_to_empty_post_selection")
+                    a2: dict = {}
+                    for full, p in sdists[0].items():
+                        if heralds_ok(full):
+                            v = tuple(visible(full))
+                            if sum(v) == nph and v[m_add] in nums and (pc or max(v, default=0) <= 1):
+                                a2[v] = a2.get(v, 0.0) + p
+                    tot2 = sum(a2.values())
+                    ctx.count("rel_after_rule_added_to_empty_post_selection")
+                    try:
+                        q2 = {tuple(st): p for st, p in qs_e.probability_distribution.items()}
+                    except Exception:  # noqa: BLE001
+                        q2 = None
+                    if q2 is not None and tot2 > 1e-6:
+                        keys = set(a2) | set(q2)
+                        worst = max(abs(a2.get(q, 0.0) / tot2 - q2.get(q, 0.0)) for q in keys)
+                        if worst > 1e-6 + 4 * (1e-9 + trunc) * max(1, len(keys)) / tot2:
+                            ctx.violation(f"a rule ({m_add}, {nums}) added in place to the (until then empty) PostSelection is "
+                                          f"not honoured by the quick sampler: differs from the conditioned sampler "
+                                          f"distribution by {worst:.3g}", case=case,
+                                          mechanism="quick_vs_sampler_after_rule_added_to_empty", monitor="relation checker")
+                    try:
+                        r_e = an_e.analyze(inputs[0])
+                        bad = [o.s for o in r_e.outputs if o[m_add] not in nums]
+                    except Exception:  # noqa: BLE001
+                        bad = []
+                    if bad:
+                        ctx.violation(f"a rule ({m_add}, {nums}) added in place to the (until then empty) PostSelection is not "
+                                      f"honoured by the analyzer: it lists output {bad[0]}", case=case,
+                                      mechanism="analyzer_ignores_rule_added_to_empty", monitor="relation checker")
+                except Exception as e:  # noqa: BLE001
+                    ctx.count("empty_post_selection_phase_raised:" + type(e).__name__)
             # (h) the same long-lived objects after a herald was declared in place on the circuit
             if rng.random() < 0.3 and not lossy and sum(h["input"].values()) <= 2:
                 try:
